@@ -554,3 +554,13 @@ PROPS['C02']['obligations'].append(
       'SuggestTrials for EVERY suggestion_count N >= 1 (symbolic, on symproto): exactly N trials or all that exist/were '
       'delivered, surplus queued as REQUESTED, nothing dropped, Pythia asked for exactly the missing amount',
       'N unbounded; own ACTIVE 0..2, REQUESTED 0..2, delivery 0..3', env=_SYM))
+
+
+PROPS['C04']['obligations'] += [
+    O('C04.pair_sql_a%d' % i, 'harness.c04_schedules', 'pair', None, 900,
+      'same schedules on the SQL datastore (in-memory sqlite, one shared connection): A = %s' % n,
+      'B over 12 RPC kinds, k in 0..11', env={'VERIF_SLICE': str(i), 'VERIF_C04_SQL': '1'}, no_validate=True)
+    for i, n in enumerate(_C04_RPCS)
+]
+PROPS['C04']['outside'] = 'more than one preemption; three concurrent calls; pre-states other than the stated one'
+PROPS['C04']['encoded'] += ['SQLDataStore.* (thorough tier)']
